@@ -101,7 +101,16 @@ def run(rep, tier, seed, pa):
             flags = {f: rng.random() < 0.5 for f in FLAGS}
         include_ref = rng.random() < 0.3
         desc = {"units": units, "magnitude": m, "annotators": anns, "flags": flags, "include_ref": include_ref}
-        cst = CST(m, ref)
+        if ri % 3 == 2:
+            # the magnitude is a public attribute (tests/test_cst.py reassigns it): a tool built at another magnitude and then set to m
+            # must behave like a tool built at m - nothing may be frozen at construction time
+            m0 = rng.choice([x for x in (0.0, 0.5, 1.0) if x != m])
+            cst = CST(m0, ref)
+            cst.magnitude = m
+            desc["constructed_with_magnitude"] = m0
+            rep.count("magnitude_reassigned")
+        else:
+            cst = CST(m, ref)
         np.random.seed(rng.randrange(2 ** 31))
         try:
             with Draws() as dr:
@@ -231,7 +240,8 @@ def run(rep, tier, seed, pa):
 def replay(rep, data, pa):
     units = [[tuple(u) for u in us] for us in data["units"]]
     ref = gen.build_continuum(pa, units, names=["Ref"])
-    cst = pa.CorpusShufflingTool(data["magnitude"], ref)
+    cst = pa.CorpusShufflingTool(data.get("constructed_with_magnitude", data["magnitude"]), ref)
+    cst.magnitude = data["magnitude"]
     script = [(n, i if n == "choice" else (int(v) if n == "randint" else v)) for n, i, v in data["draws"]]
     fl = data["flags"]
     anns = data["annotators"]
